@@ -29,9 +29,6 @@ theorem updateAct_delete {mks sys : List String} {m : String} {obs des : J} {uid
     split at h; · cases h
     split at h <;> cases h <;> rfl
 
-theorem precondition_deleteOpts (u : String) (hu : u ≠ "") : precondition (deleteOpts u) "uid" = some u := by
-  simp [precondition, deleteOpts, J.fields, lookup, hu]
-
 theorem toResp_obj {o : Out} {x : J} (h : o.toResp = .obj x) : o.ok = true := by
   unfold Out.toResp at h
   split at h
